@@ -4,6 +4,8 @@
 -/
 import SifVerif.Proofs.Step
 import SifVerif.Proofs.RangesStep
+import SifVerif.Proofs.CreateRanges
+import SifVerif.Proofs.CreateWF
 namespace Sif.C08
 
 variable (sha : Bytes → Bytes) (ph : Bytes → Option Bytes)
@@ -81,6 +83,28 @@ theorem C08_history_everywhere (s : Img) (ops : List (Op × Int)) (W : WF s) (R 
     have : (ops.take k).take j = ops.take j := by
       rw [List.take_take]; congr 1; omega
     rw [this]; exact hio j op now hj'.1
+
+/-- **from `CreateContainer` through any history**: creation options and every operation's inputs
+    representable (`CreateOpts.InRange`, `Op.InRange`), no store failure — then after every prefix
+    of the history the handle and a fresh load of the bytes are indistinguishable.  No hypothesis
+    mentions an invariant of a state. -/
+theorem C08_from_creation (be : Backend) (co : CreateOpts) (hin : co.InRange) (hdoff : 128 ≤ co.doff)
+    (h : (createContainerPlan sha ph be co).2.2 = .ok) (ops : List (Op × Int)) :
+    ∃ st', (emptyStore be).calls (createContainerPlan sha ph be co).1 = some st' ∧
+      let s0 : Img := { (createContainerPlan sha ph be co).2.1 with st := st' }
+      ((∀ k op now, ops[k]? = some (op, now) → Op.InRange (runOps sha ph s0 (ops.take k)) op now) →
+       (∀ k op now, ops[k]? = some (op, now) →
+          (step sha ph (runOps sha ph s0 (ops.take k)) op now).2 ≠ .err .io) →
+       ∀ k, ∃ s', loadContainer (runOps sha ph s0 (ops.take k)).st = .ok s' ∧
+         view s' = view (runOps sha ph s0 (ops.take k))) := by
+  have hcap : co.capacity < maxU32 := by
+    by_cases hc : co.capacity ≥ maxU32
+    · unfold createContainerPlan at h; simp [hc] at h
+    · omega
+  obtain ⟨st', h1, W, _, _⟩ := createContainerPlan_ok sha ph be co hin.2.2.1 hdoff trivial h
+  obtain ⟨R, E⟩ := createContainerPlan_ranges sha ph be co hin hcap
+  exact ⟨st', h1, fun hi hio k =>
+    C08_history_everywhere sha ph _ ops W ⟨R.hv, R.dv⟩ E hi hio k⟩
 
 /-- a reload step itself changes nothing observable -/
 theorem C08_reload_noop (s : Img) (W : WF s) (R : Ranges s) (now : Int) :
